@@ -23,6 +23,7 @@ Grammar == [
                    F("alen", "len"), F("addr", "bytes"), F("port", "u16")>>,
   socks4_req |-> <<F("ver", "enum"), F("cmd", "enum"), F("port", "u16"), F("ip", "u32"), F("userid", "bytes"), F("nul1", "delim"),
                    F("domain", "bytes"), F("nul2", "delim")>>,
+  socks5_method |-> <<F("ver", "enum"), F("method", "enum")>>,      \* the upstream's answer to the connector's method offer
   socks5_resp |-> <<F("ver", "enum"), F("rep", "enum"), F("rsv", "enum"), F("atyp", "enum"), F("alen", "len"), F("addr", "bytes"), F("port", "u16")>>,
   socks4_resp |-> <<F("vn", "enum"), F("cd", "enum"), F("port", "u16"), F("ip", "u32")>>,
   socks_udp  |-> <<F("rsv", "u16"), F("frag", "enum"), F("atyp", "enum"), F("alen", "len"), F("addr", "bytes"), F("port", "u16"), F("payload", "bytes")>>,
